@@ -53,10 +53,11 @@ def blame_lark(fn):
 class Phase(object):
     """kind='hypothesis': strategy + max_examples (total, split over shards)
        kind='enumerate' : cases(shard, nshards) -> iterable of cases"""
-    def __init__(self, name, kind, strategy=None, max_examples=0, cases=None, exhaustive=False, check=None):
+    def __init__(self, name, kind, strategy=None, max_examples=0, cases=None, exhaustive=False, check=None, case_limit=None):
         self.name = name; self.kind = kind; self.strategy = strategy
         self.max_examples = max_examples; self.cases = cases; self.exhaustive = exhaustive
         self.check = check
+        self.case_limit = case_limit      # seconds allowed for one case of this phase (default CASE_LIMIT_S)
 
 
 def jdump(x):
@@ -188,9 +189,9 @@ def _watchdog(conn, limit):
         while True:
             time.sleep(0.25)
             t0 = _current['t0']
-            if t0 is not None and time.time() - t0 > limit:
+            if t0 is not None and time.time() - t0 > (_current.get('limit') or limit):
                 try:
-                    conn.send({'hang': _current['case'], 'fn': _current['fn'], 'limit': limit})
+                    conn.send({'hang': _current['case'], 'fn': _current['fn'], 'limit': _current.get('limit') or limit})
                 except Exception:
                     pass
                 os._exit(3)
@@ -306,6 +307,7 @@ def _run_shard_inner(modname, tier, seed, phase_index, shard, nshards, scale=1.0
     else:
         ctx = Ctx(module, tier, seed, findings)
         phase = module.phases(tier)[phase_index]
+        _current['limit'] = phase.case_limit
         phase_name = phase.name; extra = {}
         fn = phase.check or module.check
         if phase.kind == 'enumerate':
